@@ -17,6 +17,10 @@ type Txn struct {
 	Hook  Hook
 	// Notify, if set, is told when a transaction has been opened ("opened") and when it has ended ("closed").
 	Notify func(what string)
+	// Deferred: the store queues the calls of a transaction and applies them at Commit (the way a request-based store
+	// such as IndexedDB does): a failing Get/Set is not reported in that operation's result but rejects the whole
+	// transaction - Commit returns the per-call results without errors TOGETHER WITH the error, and nothing is applied.
+	Deferred bool
 }
 
 func (w *Txn) notify(what string) {
@@ -72,6 +76,21 @@ type wtxn struct {
 	inner keyvalue.Transaction
 	mu    sync.Mutex
 	calls []wcall
+	// rejected: (Deferred stores) the failure that Commit will report
+	rejected error
+}
+
+// deferFailure notes err as the reason Commit will fail; true when the store is a deferred one.
+func (t *wtxn) deferFailure(err error, path string) (keyvalue.OpID, bool) {
+	if !t.w.Deferred {
+		return 0, false
+	}
+	t.mu.Lock()
+	if t.rejected == nil {
+		t.rejected = err
+	}
+	t.mu.Unlock()
+	return t.record(wcall{synthetic: true, path: path}), true
 }
 
 func (t *wtxn) record(c wcall) keyvalue.OpID {
@@ -83,6 +102,9 @@ func (t *wtxn) record(c wcall) keyvalue.OpID {
 
 func (t *wtxn) Get(path string) keyvalue.OpID {
 	if err := t.w.hook("Get", path); err != nil {
+		if id, ok := t.deferFailure(err, path); ok {
+			return id
+		}
 		return t.record(wcall{synthetic: true, err: err, path: path})
 	}
 	id := t.record(wcall{path: path})
@@ -107,6 +129,9 @@ func (t *wtxn) GetHandler(path string, h keyvalue.OpHandler) keyvalue.OpID {
 
 func (t *wtxn) Set(path string, src keyvalue.FileRecord, contents blob.Blob) keyvalue.OpID {
 	if err := t.w.hook("Set", path); err != nil {
+		if id, ok := t.deferFailure(err, path); ok {
+			return id
+		}
 		return t.record(wcall{synthetic: true, err: err, path: path})
 	}
 	id := t.record(wcall{path: path})
@@ -133,6 +158,20 @@ func (t *wtxn) Commit(ctx context.Context) ([]keyvalue.OpResult, error) {
 		_ = t.inner.Abort()
 		t.w.notify("closed")
 		return nil, err
+	}
+	t.mu.Lock()
+	rejected := t.rejected
+	t.mu.Unlock()
+	if rejected != nil {
+		_ = t.inner.Abort()
+		t.w.notify("closed")
+		t.mu.Lock()
+		defer t.mu.Unlock()
+		out := make([]keyvalue.OpResult, 0, len(t.calls))
+		for i := range t.calls {
+			out = append(out, keyvalue.OpResult{Op: keyvalue.OpID(i)})
+		}
+		return out, rejected
 	}
 	inner, err := t.inner.Commit(ctx)
 	t.w.notify("closed")
